@@ -17,6 +17,9 @@ Tie, re-run from VERIF_REPO's working tree on every invocation:
      sorted) and keyspace dumps must agree; for the modelled families both traces are replayed
      by the extracted srv_exec; every log entry the implementation produced must be byte for
      byte what encode_proposal gives and decode to the client's argument vector.
+ (N) two Managers fed from ONE shared log (hook VerifClusterLoopbackNodes; connection c talks to node
+     c%2): rounds of up to four commands, all proposed before any is committed, each client's reply
+     compared with the standalone path and the model for its own command; both nodes' dumps equal.
  (R) real node processes -- a standalone server and a three-node cluster on localhost (thorough:
      also a single-node cluster, longer programs) run the same clock-free program, commands sent
      round-robin to the nodes; every reply and the VERIFDUMP of every node are compared."""
@@ -324,11 +327,26 @@ def check_programs(d, progtext, tag, with_model, cluster_mode="cluster"):
         diff = aligned_compare(sa, cc.get(name, []), wa.get(name, []), wc.get(name, []))
         if diff:
             res["failing"] = dict(kind="cluster-vs-standalone", detail=diff, case=allc[name])
+            if cluster_mode == "clusternodes":
+                res["failing"]["note"] = ("two nodes (connection c talks to node c%2) share one log; the commands of a round, one per connection on "
+                                          "keys of its own, are all proposed before any is committed; every client must get the reply to its OWN "
+                                          "command (C14_reply_routed_by_origin): here a client was answered with something else")
             if cluster_mode == "clusterpar":
                 res["failing"]["note"] = ("each round's commands (one per connection, disjoint keys) were all proposed before any was committed; "
                                           "the entry applied for a proposal must still be that proposal (C14_log_carries_unaltered)")
             return res
     res["nondet_cases"] = len(nondet)
+    if cluster_mode == "clusternodes":
+        # the second node applied the same log: its dumps must be those of the first
+        c2 = parse_trace(d / (tc.name + ".node2"))
+        for name, lines in cc.items():
+            d1 = [l for l in lines if l.startswith("D ") or l.startswith("DEND")]
+            d2 = [l for l in c2.get(name, []) if l.startswith("D ") or l.startswith("DEND")]
+            if d1 != d2 and name not in nondet:
+                res["failing"] = dict(kind="nodes-of-one-log-hold-different-keyspaces", case=allc[name],
+                                      node1_only=[l[:160] for l in sorted(set(d1) - set(d2))[:3]],
+                                      node2_only=[l[:160] for l in sorted(set(d2) - set(d1))[:3]])
+                return res
     bad, n, err = entries_verdict(d, d / (tc.name + ".entries"), tag)
     res["entries"] = n
     if err:
@@ -622,7 +640,8 @@ def run(ctx):
             text = "\n".join(r["case_lines"]) + "\n"
             wm = r.get("with_model", True)
             res = check_routing(d, text, "replay") if wm is None else \
-                check_programs(d, text, "replay", True, cluster_mode="clusterpar") if wm == "par" else check_programs(d, text, "replay", wm)
+                check_programs(d, text, "replay", True, cluster_mode="clusterpar") if wm == "par" else \
+                check_programs(d, text, "replay", True, cluster_mode="clusternodes") if wm == "nodes" else check_programs(d, text, "replay", wm)
             print(res["trace"][-3000:])
             print(json.dumps(dict(failing=res["failing"], err=res["err"]), indent=1, default=str))
             return 1 if (res["failing"] or res["err"]) else 0
@@ -667,8 +686,9 @@ def run(ctx):
             return True
         fam = [c for c in fam if modest(c)]
         plan = [("a", gen_cluster.gen_c14_alias_cases(ctx.seed, 60 if quick else 4000), True),
-                ("m", gen_cluster.gen_c14_model_cases(ctx.seed, 300 if quick else 8000), True),
                 ("p", gen_cluster.gen_c14_par_cases(ctx.seed, 150 if quick else 5000), "par"),
+                ("n", gen_cluster.gen_c14_par_cases(ctx.seed + 7, 150 if quick else 5000), "nodes"),
+                ("m", gen_cluster.gen_c14_model_cases(ctx.seed, 300 if quick else 8000), True),
                 ("w", gen_cluster.gen_c14_wire_cases(ctx.seed, 200 if quick else 5000), True),
                 ("fam", fam, True)]
         cdir = lib.VERIF / "corpus"
@@ -681,6 +701,8 @@ def run(ctx):
                 fn = lambda t, tg: check_routing(d, t, tg)
             elif with_model == "par":
                 fn = lambda t, tg: check_programs(d, t, tg, True, cluster_mode="clusterpar")
+            elif with_model == "nodes":
+                fn = lambda t, tg: check_programs(d, t, tg, True, cluster_mode="clusternodes")
             else:
                 fn = lambda t, tg, wm=with_model: check_programs(d, t, tg, wm)
             res = fn(text, tag)
@@ -692,6 +714,8 @@ def run(ctx):
             stats["nondet_cases"] = stats.get("nondet_cases", 0) + res.get("nondet_cases", 0)
             if with_model == "par":
                 stats["par_steps"] = stats.get("par_steps", 0) + res["steps"]
+            if with_model == "nodes":
+                stats["nodes_steps"] = stats.get("nodes_steps", 0) + res["steps"]
             st = memlib.stats(res["trace"])
             shapes |= st[3]
             hostile.update(hostile_stats(res["trace"]))
@@ -762,6 +786,7 @@ def run(ctx):
         process_level_steps=pstats.get("process_steps", 0),
         concurrent_client_steps_on_real_nodes=cstats.get("concurrent_steps", 0),
         steps_with_pending_proposals_loopback=stats.get("par_steps", 0),
+        steps_on_two_nodes_sharing_one_log=stats.get("nodes_steps", 0),
         programs_left_to_their_family_property=stats.get("model_skipped", 0), programs_with_random_draws_judged_by_model_only=stats.get("nondet_cases", 0),
         distinct_nontrivial=len(shapes),
         rule="encoder: the empty vector, every single byte value, base64 padding lengths 0-8 for six byte values, a fixed list of hostile "
